@@ -457,6 +457,13 @@ impl Check {
     where
         F: Fn(&mut Tape, &mut Case) + Sync,
     {
+        if fuzz::active() {
+            if fuzz::sub_name().as_deref() == Some(name) {
+                let known: Vec<String> = self.known.iter().filter(|k| k.status == "known").map(|k| k.signature.clone()).collect();
+                fuzz::serve(&f, &known);
+            }
+            return;
+        }
         // worker mode: serve cases for exactly one sub
         if let Some(w) = self.worker.clone() {
             if w == name {
@@ -464,6 +471,10 @@ impl Check {
                 std::process::exit(0);
             }
             return;
+        }
+        let mut cfg = cfg;
+        if std::env::var_os("VERIF_NO_ISOLATE").is_some() {
+            cfg.isolated = false;
         }
         // replay mode
         if let Some((sub, tape)) = self.replay.clone() {
@@ -635,7 +646,7 @@ impl Check {
     where
         F: FnOnce(&mut EnumRecorder),
     {
-        if self.worker.is_some() || self.replay.is_some() {
+        if self.worker.is_some() || self.replay.is_some() || fuzz::active() {
             return;
         }
         if let Some(o) = &self.only_sub {
@@ -1044,7 +1055,20 @@ impl Worker {
                 }
             }
         });
-        Ok(Worker { child, stdin, rx })
+        let w = Worker { child, stdin, rx };
+        // the worker announces itself once its start-up work (seed construction etc.) is done, so that
+        // start-up time is never charged to a case deadline
+        match w.rx.recv_timeout(Duration::from_secs(300)) {
+            Ok(l) if l == "ready" => Ok(w),
+            Ok(l) => {
+                w.shutdown();
+                Err(std::io::Error::new(std::io::ErrorKind::Other, format!("unexpected worker greeting {l:?}")))
+            }
+            Err(_) => {
+                w.shutdown();
+                Err(std::io::Error::new(std::io::ErrorKind::Other, "worker did not become ready"))
+            }
+        }
     }
     fn cpu_ms(&self) -> u64 {
         let p = format!("/proc/{}/stat", self.child.id());
@@ -1075,6 +1099,11 @@ where
     let stdin = std::io::stdin();
     let mut stdin = stdin.lock();
     let stdout = std::io::stdout();
+    {
+        let mut out = stdout.lock();
+        let _ = writeln!(out, "ready");
+        let _ = out.flush();
+    }
     loop {
         let mut hdr = [0u8; 5];
         if stdin.read_exact(&mut hdr).is_err() {
@@ -1203,7 +1232,8 @@ fn run_in_worker(slot: &RefCell<Option<Worker>>, sub: &str, tape: &[u8], cfg: &S
                     continue;
                 }
                 let mut c = Case::new(false);
-                if cfg.hang_is_violation {
+                // only a worker that burns CPU is a hang; one that got no CPU was starved by other load
+                if cfg.hang_is_violation && spinning {
                     c.verdict = Verdict::Fail {
                         sig: "hang".into(),
                         msg: format!(
@@ -1214,7 +1244,12 @@ fn run_in_worker(slot: &RefCell<Option<Worker>>, sub: &str, tape: &[u8], cfg: &S
                         ),
                     };
                 } else {
-                    c.verdict = Verdict::Infra(format!("deadline of {} ms exceeded (cpu {} ms)", deadline.as_millis(), cpu));
+                    c.verdict = Verdict::Infra(format!(
+                        "deadline of {} ms exceeded (cpu {} ms, spinning={}); not counted as a hang",
+                        deadline.as_millis(),
+                        cpu,
+                        spinning
+                    ));
                 }
                 return c;
             }
@@ -1299,4 +1334,92 @@ fn write_failure(id: &str, sub: &str, sig: &str, msg: &str, tape: &[u8]) -> Path
     });
     let _ = std::fs::write(&p, serde_json::to_string_pretty(&v).unwrap() + "\n");
     p
+}
+
+
+// ---------------------------------------------------------------------------------------------
+// coverage-guided fuzzing: any check binary's sub-check can be driven by libFuzzer
+//
+// The fuzz target (see /verif/fuzz) includes the check's source file as a module and calls
+// `fuzz::one_input(data, check::main)`. The first call starts `main` on a helper thread; `Check::sub`
+// for the sub-check named by $VP_FUZZ_SUB then serves tapes sent by the libFuzzer thread instead of
+// running the proptest search, so the semantic oracle runs inside the fuzz target.
+pub mod fuzz {
+    use super::*;
+    use std::sync::OnceLock;
+
+    pub(super) struct Link {
+        pub to_check: Mutex<Option<mpsc::Receiver<Vec<u8>>>>,
+        pub tx_tape: Mutex<mpsc::Sender<Vec<u8>>>,
+        pub tx_reply: Mutex<mpsc::Sender<Option<String>>>,
+        pub from_check: Mutex<mpsc::Receiver<Option<String>>>,
+    }
+    pub(super) static LINK: OnceLock<Link> = OnceLock::new();
+
+    pub fn sub_name() -> Option<String> {
+        std::env::var("VP_FUZZ_SUB").ok()
+    }
+    pub fn active() -> bool {
+        LINK.get().is_some()
+    }
+
+    /// Called from the libFuzzer thread for every input.
+    pub fn one_input(data: &[u8], check_main: fn()) {
+        let link = LINK.get_or_init(|| {
+            let (tx_tape, rx_tape) = mpsc::channel();
+            let (tx_reply, rx_reply) = mpsc::channel();
+            std::thread::Builder::new()
+                .name("vp-check-main".into())
+                .stack_size(64 << 20)
+                .spawn(move || {
+                    check_main();
+                    eprintln!("vp fuzz: check main returned: sub-check ${{VP_FUZZ_SUB}} not found?");
+                    std::process::exit(3);
+                })
+                .expect("spawn check thread");
+            Link {
+                to_check: Mutex::new(Some(rx_tape)),
+                tx_tape: Mutex::new(tx_tape),
+                tx_reply: Mutex::new(tx_reply),
+                from_check: Mutex::new(rx_reply),
+            }
+        });
+        link.tx_tape.lock().unwrap().send(data.to_vec()).expect("check thread alive");
+        match link.from_check.lock().unwrap().recv() {
+            Ok(None) => {}
+            Ok(Some(msg)) => {
+                eprintln!("vp fuzz: VIOLATION {msg}");
+                std::process::abort();
+            }
+            Err(_) => {
+                eprintln!("vp fuzz: check thread died");
+                std::process::abort();
+            }
+        }
+    }
+
+    /// Serve tapes for sub-check `f` forever (runs on the check thread).
+    pub(super) fn serve<F>(f: &F, known_sigs: &[String]) -> !
+    where
+        F: Fn(&mut Tape, &mut Case),
+    {
+        let link = LINK.get().expect("fuzz link");
+        let rx = link.to_check.lock().unwrap().take().expect("single server");
+        let strict = std::env::var_os("VP_FUZZ_STRICT").is_some();
+        loop {
+            let Ok(tape) = rx.recv() else { std::process::exit(0) };
+            let c = run_case(f, &tape, false);
+            let reply = match c.verdict {
+                Verdict::Fail { sig, msg } => {
+                    if !strict && known_sigs.iter().any(|k| *k == sig) {
+                        None
+                    } else {
+                        Some(format!("[{sig}] {msg}"))
+                    }
+                }
+                _ => None,
+            };
+            let _ = link.tx_reply.lock().unwrap().send(reply);
+        }
+    }
 }
